@@ -170,3 +170,13 @@ func init() {
 	}
 	propRegistry = append(propRegistry, c05)
 }
+
+func init() {
+	c18 := &Property{ID: "C18", Pkgs: []string{"db"}, Bounds: map[string]string{"base64 kernel": "every byte vector of length 0..4 (quick) / 0..6 (thorough), bytes symbolic", "copy-in/out": "values of length 0..2, arbitrary valid database state 2x2"}}
+	c18.Harnesses = append(c18.Harnesses,
+		&HarnessSpec{Name: "verifHarnessC18Base64", Pkg: "db", Stubs: dbStubs, Params: map[string]int{"rawlen": 9}, ThoroughParams: map[string]int{"rawlen": 16},
+			ExpectReach: []string{"end"}, Desc: "byteString.UnmarshalText(MarshalText(b)) == b through the real encoding/base64 (SSA interpreted, table lookups as ite chains)"},
+		&HarnessSpec{Name: "verifHarnessC18CopyInOut", Pkg: "db", Stubs: dbStubs, Params: map[string]int{"secrets": 2, "versions": 2, "vallen": 2},
+			ExpectReach: []string{"end"}, Desc: "Put copies the caller's buffer in; GetVersion copies out (mutating either side changes nothing)"})
+	propRegistry = append(propRegistry, c18)
+}
